@@ -10,6 +10,7 @@ package simnet
 
 import (
 	"context"
+	"encoding/binary"
 	"errors"
 	"fmt"
 	"hash/fnv"
@@ -63,6 +64,10 @@ type Net struct {
 	connSeq   int
 	dgramSeq  int
 	flows     map[string]*flow
+
+	// instants are the delivery times taken in Timed mode.
+	instMu   sync.Mutex
+	instants map[int64]struct{}
 
 	// Stats of what was actually injected.
 	Segments, Drops, Dups int
@@ -158,6 +163,11 @@ func (n *Net) Dial(address string, local netip.AddrPort) (c *Conn, err error) {
 
 	n.mu.Lock()
 	l, ok := n.listeners[ap.String()]
+	if !ok {
+		// A listener bound to the unspecified address takes connections to
+		// every address on its port.
+		l, ok = n.listeners[wildcard(ap).String()]
+	}
 	n.connSeq++
 	id := n.connSeq
 	n.mu.Unlock()
@@ -257,6 +267,32 @@ func newHalf(n *Net, name string) (h *half) {
 	return h
 }
 
+// instant returns the first instant not before at, and after now, at which
+// nothing else is delivered on this network.
+func (n *Net) instant(at time.Time) (free time.Time) {
+	n.instMu.Lock()
+	defer n.instMu.Unlock()
+
+	if n.instants == nil {
+		n.instants = map[int64]struct{}{}
+	}
+
+	if now := time.Now(); !at.After(now) {
+		at = now.Add(time.Microsecond)
+	}
+
+	for {
+		_, used := n.instants[at.UnixNano()]
+		if !used {
+			break
+		}
+		at = at.Add(time.Nanosecond)
+	}
+	n.instants[at.UnixNano()] = struct{}{}
+
+	return at
+}
+
 // flowRand returns the private generator of a flow.
 func (n *Net) flowRand(name string) (r *rand.Rand) {
 	hs := fnv.New64a()
@@ -290,10 +326,15 @@ func (h *half) scheduleTimed(k int) {
 		}
 		k -= seg
 
+		// Every delivery has an instant of its own, and the segments of one
+		// stream arrive at strictly increasing ones: the fake clock advances
+		// only when every goroutine is blocked, so what a reader sees of a
+		// segmented message does not depend on the Go scheduler.
 		at := time.Now().Add(latencies[h.rng.IntN(len(latencies))])
-		if at.Before(h.arrival) {
-			at = h.arrival
+		if !at.After(h.arrival) {
+			at = h.arrival.Add(time.Microsecond)
 		}
+		at = h.n.instant(at)
 		h.arrival = at
 		h.pending++
 		n := seg
@@ -640,14 +681,76 @@ func (p *PacketConn) poke() {
 	}
 }
 
+// wildcard returns the unspecified IPv4 address with the port of ap.
+func wildcard(ap netip.AddrPort) (w netip.AddrPort) {
+	return netip.AddrPortFrom(netip.IPv4Unspecified(), ap.Port())
+}
+
 // ReadFrom implements the net.PacketConn interface for *PacketConn.
 func (p *PacketConn) ReadFrom(b []byte) (n int, addr net.Addr, err error) {
+	n, _, addr, err = p.readFrom(b)
+
+	return n, addr, err
+}
+
+// Control-message constants of Linux (IPPROTO_IP level).
+const (
+	solIP         = 0
+	ipPktinfo     = 8
+	ipOrigDstAddr = 20
+	afInet        = 2
+)
+
+// ReadMsgUDP is the method of *net.UDPConn of that name on a socket with
+// IP_RECVORIGDSTADDR set: oob receives one control message carrying the
+// address the datagram was sent to.  Only IPv4 is simulated.
+func (p *PacketConn) ReadMsgUDP(b, oob []byte) (n, oobn, flags int, addr *net.UDPAddr, err error) {
+	n, to, from, err := p.readFrom(b)
+	if err != nil {
+		return 0, 0, 0, nil, err
+	}
+
+	// struct cmsghdr { size_t len; int level; int type; } followed by a
+	// struct sockaddr_in { family (host order), port (network order), addr,
+	// zero[8] }.
+	var cm [32]byte
+	binary.LittleEndian.PutUint64(cm[0:], 32)
+	binary.LittleEndian.PutUint32(cm[8:], solIP)
+	binary.LittleEndian.PutUint32(cm[12:], ipOrigDstAddr)
+	binary.LittleEndian.PutUint16(cm[16:], afInet)
+	binary.BigEndian.PutUint16(cm[18:], to.Port())
+	a4 := to.Addr().As4()
+	copy(cm[20:24], a4[:])
+	oobn = copy(oob, cm[:])
+
+	return n, oobn, 0, from.(*net.UDPAddr), nil
+}
+
+// WriteMsgUDP is the method of *net.UDPConn of that name: an IP_PKTINFO
+// control message in oob chooses the source address of the datagram.
+func (p *PacketConn) WriteMsgUDP(b, oob []byte, addr *net.UDPAddr) (n, oobn int, err error) {
+	from := p.addr
+	if len(oob) >= 28 &&
+		binary.LittleEndian.Uint32(oob[8:]) == solIP &&
+		binary.LittleEndian.Uint32(oob[12:]) == ipPktinfo {
+		// struct in_pktinfo { int ifindex; in_addr spec_dst; in_addr addr; }
+		var a4 [4]byte
+		copy(a4[:], oob[20:24])
+		from = netip.AddrPortFrom(netip.AddrFrom4(a4), p.addr.Port())
+	}
+
+	n, err = p.writeFromTo(b, from, addr)
+
+	return n, len(oob), err
+}
+
+func (p *PacketConn) readFrom(b []byte) (n int, to netip.AddrPort, addr net.Addr, err error) {
 	for {
 		p.mu.Lock()
 		if p.closed {
 			p.mu.Unlock()
 
-			return 0, nil, &net.OpError{Op: "read", Net: "udp", Err: net.ErrClosed}
+			return 0, to, nil, &net.OpError{Op: "read", Net: "udp", Err: net.ErrClosed}
 		}
 		if len(p.queue) > 0 {
 			d := p.queue[0]
@@ -655,7 +758,7 @@ func (p *PacketConn) ReadFrom(b []byte) (n int, addr net.Addr, err error) {
 			p.mu.Unlock()
 			n = copy(b, d.data)
 
-			return n, net.UDPAddrFromAddrPort(d.from), nil
+			return n, d.to, net.UDPAddrFromAddrPort(d.from), nil
 		}
 		dl := p.rdl
 		p.mu.Unlock()
@@ -663,7 +766,7 @@ func (p *PacketConn) ReadFrom(b []byte) (n int, addr net.Addr, err error) {
 		if !dl.IsZero() {
 			d := time.Until(dl)
 			if d <= 0 {
-				return 0, nil, &net.OpError{Op: "read", Net: "udp", Err: timeoutError{}}
+				return 0, to, nil, &net.OpError{Op: "read", Net: "udp", Err: timeoutError{}}
 			}
 			tm := time.NewTimer(d)
 			select {
@@ -679,6 +782,10 @@ func (p *PacketConn) ReadFrom(b []byte) (n int, addr net.Addr, err error) {
 
 // WriteTo implements the net.PacketConn interface for *PacketConn.
 func (p *PacketConn) WriteTo(b []byte, addr net.Addr) (n int, err error) {
+	return p.writeFromTo(b, p.addr, addr)
+}
+
+func (p *PacketConn) writeFromTo(b []byte, from netip.AddrPort, addr net.Addr) (n int, err error) {
 	p.mu.Lock()
 	closed := p.closed
 	p.mu.Unlock()
@@ -698,7 +805,7 @@ func (p *PacketConn) WriteTo(b []byte, addr net.Addr) (n int, err error) {
 	}
 	to = netip.AddrPortFrom(to.Addr().Unmap(), to.Port())
 
-	d := dgram{data: append([]byte(nil), b...), from: p.addr, to: to}
+	d := dgram{data: append([]byte(nil), b...), from: from, to: to}
 	p.n.send(d)
 
 	return len(b), nil
@@ -721,6 +828,10 @@ func (n *Net) sendTimed(d dgram) {
 	lat1 := latencies[f.rng.IntN(len(latencies))]
 	lat2 := latencies[f.rng.IntN(len(latencies))]
 	n.mu.Unlock()
+
+	now := time.Now()
+	lat1 = time.Until(n.instant(now.Add(lat1)))
+	lat2 = time.Until(n.instant(now.Add(lat2)))
 
 	if drop {
 		n.Drops++
@@ -776,6 +887,9 @@ func (n *Net) send(d dgram) {
 func (n *Net) deliver(d dgram) {
 	n.mu.Lock()
 	pc := n.packets[d.to.String()]
+	if pc == nil {
+		pc = n.packets[wildcard(d.to).String()]
+	}
 	n.mu.Unlock()
 	if pc == nil {
 		return
